@@ -5,6 +5,7 @@ import Driver.GTreeIO
 def handlers : List (String × (String → String)) :=
   [ ("strtree", Driver.C15.history),
     ("strslices", Driver.C15.slices),
+    ("otheridx", Driver.C15.other),
     ("gtree-echo", fun l => match Driver.GTreeIO.parseGeom (Driver.tokens l) with
         | some (g, []) => Driver.GTreeIO.showGeom g
         | _ => "parse-error") ]
